@@ -153,10 +153,14 @@ def c17_models(tier):
     n = 4
     cs = bar_candidates(n, extras=False)
     bads = [(0, "ok")] + [(at, cls) for at in (1, 2, 3) for cls in ("shape", "below", "above", "nan", "index")]
+    inv = ["MalformedNeverExecutes", "RejectedByDueStep", "MalformedRejected", "FifoDelay"]
     return [env_model("malformed", G[:n], cs, range(1, n + 1), 0, [0], [FOLD_ALL], [(False, -1)],
                       delays=(0, 1, 2), spaces=("box", "discrete", "boxcash", "boxlots"), bads=bads, maxcalls=n,
-                      reset_anywhere=False, trade=True,
-                      invariants=["MalformedNeverExecutes", "RejectedByDueStep", "MalformedRejected", "FifoDelay"])]
+                      reset_anywhere=False, trade=True, invariants=inv),
+            # a space whose bounds exclude zero (the all-zero action is the "below" class there); no delay, because the
+            # null action that a delay queues is itself outside such a space
+            env_model("malformed-boxpos", G[:n], cs, range(1, n + 1), 0, [0], [FOLD_ALL], [(False, -1)], delays=(0,),
+                      spaces=("boxpos",), bads=bads, maxcalls=n, reset_anywhere=False, trade=True, invariants=inv)]
 
 
 def c17(tier, seed):
